@@ -1455,12 +1455,18 @@ Definition run_single (so : option stmt) (s : rstate) : outcome :=
     end
   end.
 
+(* callExpr polls the context once the callee is known to be a function, before any argument
+   is evaluated: after cancellation no further call (script or host) is started *)
+Definition call_polled (f : value) (args : list expr) (vararg go : bool) (s : rstate) : outcome :=
+  let '(cancelled, s0) := poll s in
+  if cancelled then Err (ESentinel SInterruptS) (set_rv s0 rv_nil) else call_function f args vararg go s0.
+
 Definition exec_body (c : cmd) (s : rstate) : outcome :=
   match c with
   | CStmt so => run_single so s
   | CExpr e => invoke_expr e s
   | CLet e => invoke_let e s
-  | CCall f args vararg go => call_function f args vararg go s
+  | CCall f args vararg go => call_polled f args vararg go s
   | CApply f args cs => apply_fn f args cs s
   | CLoop c body env0 => loop_iter c body env0 s
   | CForSlice var body l off len i => for_slice_iter var body l off len i s
